@@ -194,6 +194,13 @@ TFireEffect(e) ==
       [] e = "Close" ->
            /\ cl' = [cl EXCEPT ![FreeCloser] = "begin"]
            /\ UNCHANGED <<handles, iceT, sock, peerAlive, alertIn, abortIn, shutdownIn, calls, sendpc>>
+      [] e = "OwnDtlsClose" ->      \* this endpoint's DTLS transport was closed directly (harness playing a peer)
+           /\ UNCHANGED <<cl, handles, iceT, sock, peerAlive, alertIn, abortIn, shutdownIn, calls, sendpc>>
+      [] e = "OwnSctpAbort" ->
+           /\ UNCHANGED <<cl, handles, iceT, sock, peerAlive, alertIn, abortIn, shutdownIn, calls, sendpc>>
+      [] e = "OwnSctpShutdown" ->
+           /\ shutdownIn' = TRUE
+           /\ UNCHANGED <<cl, handles, iceT, sock, peerAlive, alertIn, abortIn, calls, sendpc>>
       [] e = "SocketLoss" ->
            \* the harness plays it with close() on the peer: now and then its close_notify still gets out
            /\ peerAlive' = FALSE /\ alertIn' \in BOOLEAN
@@ -211,7 +218,8 @@ TFire ==
     /\ fired' = Append(fired, [ev |-> Ev.site, phase |-> "none", at |-> "any"])
     /\ tr' = [tr EXCEPT !.localFired = @ \/ (Ev.site \in {"Close", "Drop"}),
                         !.remoteFired = @ \/ (Ev.site \notin {"Close", "Drop"})]
-    /\ UNCHANGED <<peer, sig, reason, ap, seenL, seenC, role, lp, cp, cval, cnext, dtls, dtask, dpermit, seenD, sctp,
+    /\ dpermit' = (IF Ev.site = "OwnDtlsClose" /\ dtls # "none" THEN TRUE ELSE dpermit)
+    /\ UNCHANGED <<peer, sig, reason, ap, seenL, seenC, role, lp, cp, cval, cnext, dtls, dtask, seenD, sctp,
                    stask, srun, spermit, swhy, loops, chan, opened, closes, grace, dropped, wfcLeft>>
     /\ UNCHANGED viol /\ Consume
 
@@ -342,8 +350,9 @@ Silent ==
        \/ C_RunLoops \/ C_RunIce \/ C_RunDtls \/ C_RunGrace
        \/ D_Connect \/ D_Close \/ D_SockGone \/ D_PeerAlert \/ D_Timeout
        \/ S_Start \/ S_DtlsUp \/ S_Established \/ S_ChanOpen \/ S_Closed \/ S_DtlsGone \/ S_Abort \/ S_PeerSilent
+       \/ S_InputClosed \/ S_ShutdownAck
        \/ T_DirectEnd
-       \/ I_Connect \/ I_Disconnect \/ I_Fail
+       \/ I_Connect \/ I_Complete \/ I_Disconnect \/ I_Fail
     /\ k' = k + 1
     /\ UNCHANGED <<l, tr, viol>>
 
